@@ -21,7 +21,7 @@ CHECKS = {
     "C06": "engine", "C07": "engine", "C08": "engine", "C09": "engine", "C13": "engine",
     "C01": "engine", "C02": "engine", "C03": "engine", "C04": "engine", "C05": "engine", "C14": "engine", "C15": "engine",
     "C41": "engine", "C16": "engine", "C36": "engine",
-    "C33": "webpush", "C32": "access",
+    "C33": "webpush", "C32": "access", "C19": "analyzer", "C20": "analyzer",
 }
 
 MC = "model_checking"
@@ -31,6 +31,21 @@ EXP = "exploration"
 INTERP_TRUST = "Trusted: the harness-side observation (property descriptors on ast.Node flags, wrappers around PInterpreter.tick / _is_awaiting_threshold / _try_activate_node and Tracking._add_record_state, none of them in /repo), exact rational re-evaluation of clocks and conditions from the values every observer reads, virtual time. The monitor state is the implementation's flags; the clauses relate them to the program structure."
 
 CLAIMS = {
+    "C19": (EXP, "TLA+ grammar Analyzer.tla enumerates instruction lines with the verdict the analysis owes (mustFlag; TLC initial states, "
+                 "1134 lines); each is linted by the real lsp_analysis.lint against the definitions the real engine publishes; "
+                 "AnalyzerTrace.tla compares",
+            "Watch/Alarm/Simulate/Simulate off lines over defined tags, close misspellings, names with no similar tag, too short and "
+            "missing names x missing operator / value x 7 units, command lines over defined, misspelt and unknown names x 6 "
+            "arguments; every line alone and 600 (thorough 6000) random pairs in one method: lint never degrades to the generic "
+            "'Parse error' diagnostic and every offending line carries an error diagnostic.",
+            "Exploration level: the oracle only demands an error on the offending line. The stub aggregator serves the engine's own "
+            "UOD definition; names of the spec are checked against what the engine publishes.", "7 C19"),
+    "C20": (EXP, "Analyzer.tla lines that the real analysis accepts are executed on the real engine; AnalyzerTrace.tla clause "
+                 "C20.accepted-method-runs-clean",
+            "Every enumerated line without an error diagnostic (about 100-400 methods: conditions with compatible units, commands "
+            "with regex arguments, Simulate with unit conversion) runs for 20 ticks with inputs below / above the condition "
+            "values; no line may fail for a name, argument or unit reason.",
+            "Exploration level. Failure reasons are classified from the engine's error text.", "7 C20"),
     "C16": (MC, "TLA+ design spec TagReport.tla (StampInRange, StampMonotone, StampIsChangeTick; TLC) + monitor TagReportTrace.tla on the "
                 "tag reports built by the real EngineMessageBuilder in recorded engine runs",
             "In the program and random families of the engine corpus a report (delta, sometimes snapshot) is taken after 1-5 ticks and "
